@@ -6,6 +6,11 @@
 //! comparison done here is data equality between observation and TLC's prediction (fast path, DESIGN.md section 2);
 //! every verdict is taken by TLC on the recorded events (spec/VerbTrace.tla).
 //! Documented exception: the decimal texts of the ORIGINAL numbers are produced here (core::fmt / ryu), see VerbTrace.
+//! Nested shapes (spec/VerbShapes.tla): the same values handed to the serde encoder inside Option / newtype / tuple / struct /
+//! Vec / map / enum variants, with chars, units and unit variants between them, through dlt_args!, add_to_serializer,
+//! to_payload and the serializer's own SerializeSeq / SerializeTuple / ... / SerializeStruct helper methods (`Sh`, `encode_shaped`).
+//! Real Rust types are used wherever the arity allows (Option, tuples, Vec, char, (), derived structs / enums); the rest calls
+//! the serde data-model methods exactly as a derive would.
 use adlt::dlt::{
     DltArg, DltExtendedHeader, DltMessage, DltStandardHeader, DLT_SCOD_ASCII, DLT_SCOD_UTF8, DLT_TYLE_16BIT, DLT_TYLE_32BIT,
     DLT_TYLE_64BIT, DLT_TYLE_8BIT, DLT_TYPE_INFO_BOOL, DLT_TYPE_INFO_FLOA, DLT_TYPE_INFO_RAWD, DLT_TYPE_INFO_SINT,
@@ -331,6 +336,439 @@ fn pick_val(rng: &mut Rng, kind: &str, w: usize, n: usize, enc: &str) -> Option<
     })
 }
 
+// ------------------------------------------------------------------------------------------------ nested shapes
+/// names of variants / struct fields and the chars of `Sh::Char` (spec/mc/MCVerbPayload.tla NameLen / CharLen, ids 1-based there)
+const NAMES: [&str; 4] = ["A", "Ok", "Third", "Variant9"];
+const CHARS: [char; 4] = ['c', '\u{e4}', '\u{20ac}', '\u{1f600}'];
+
+/// a tree over the serde data model (node types of spec/VerbShapes.tla)
+#[derive(Clone, Debug)]
+enum Sh {
+    Leaf(Val),
+    Char(usize),
+    NoneV,
+    Unit,
+    UnitStruct,
+    UnitVariant(usize),
+    SomeV(Box<Sh>),
+    Newtype(Box<Sh>),
+    Wrapper(Box<Sh>),
+    NewtypeVariant(usize, Box<Sh>),
+    Seq(Vec<Sh>),
+    Tuple(Vec<Sh>),
+    TupleStruct(Vec<Sh>),
+    TupleVariant(usize, Vec<Sh>),
+    Map(Vec<Sh>),
+    Struct(Vec<Sh>),
+    StructVariant(usize, Vec<Sh>),
+    Field(usize, Box<Sh>),
+}
+
+#[allow(non_snake_case, dead_code)]
+mod real_types {
+    //! genuine derived types (what user code would hand to dlt_args!)
+    use super::Sh;
+    #[derive(serde::Serialize)]
+    pub struct UnitS;
+    #[derive(serde::Serialize)]
+    pub struct NewT<'a>(pub &'a Sh);
+    #[derive(serde::Serialize)]
+    pub struct TupS2<'a>(pub &'a Sh, pub &'a Sh);
+    #[derive(serde::Serialize)]
+    pub struct TupS3<'a>(pub &'a Sh, pub &'a Sh, pub &'a Sh);
+    #[derive(serde::Serialize)]
+    pub struct St1<'a> {
+        pub A: &'a Sh,
+    }
+    #[derive(serde::Serialize)]
+    pub struct St2<'a> {
+        pub A: &'a Sh,
+        pub Ok: &'a Sh,
+    }
+    #[derive(serde::Serialize)]
+    pub struct St3<'a> {
+        pub A: &'a Sh,
+        pub Ok: &'a Sh,
+        pub Third: &'a Sh,
+    }
+    #[derive(serde::Serialize)]
+    pub enum UnitE {
+        A,
+        Ok,
+        Third,
+        Variant9,
+    }
+    #[derive(serde::Serialize)]
+    pub enum NewtE<'a> {
+        A(&'a Sh),
+        Ok(&'a Sh),
+        Third(&'a Sh),
+        Variant9(&'a Sh),
+    }
+    #[derive(serde::Serialize)]
+    pub enum TupE<'a> {
+        A(&'a Sh, &'a Sh),
+        Ok(&'a Sh, &'a Sh),
+        Third(&'a Sh, &'a Sh),
+        Variant9(&'a Sh, &'a Sh),
+    }
+    /// same name and variant position as adlt's DltVerbArgTypeWrapper (which only takes &serde_bytes::Bytes)
+    #[derive(serde::Serialize)]
+    pub enum DltVerbArgTypeWrapper<'a> {
+        DltScodAscii(&'a Sh),
+    }
+}
+
+impl serde::Serialize for Sh {
+    fn serialize<S: serde::Serializer>(&self, s: S) -> Result<S::Ok, S::Error> {
+        use real_types::*;
+        use serde::ser::{SerializeMap, SerializeStruct, SerializeStructVariant, SerializeTuple, SerializeTupleStruct, SerializeTupleVariant};
+        let field_ids = |v: &[Sh]| -> Vec<usize> { v.iter().map(|f| if let Sh::Field(id, _) = f { *id } else { usize::MAX }).collect() };
+        let field_val = |f: &Sh| -> Sh { if let Sh::Field(_, x) = f { (**x).clone() } else { f.clone() } };
+        match self {
+            Sh::Leaf(v) => v.serialize(s),
+            Sh::Char(i) => CHARS[*i].serialize(s),
+            Sh::NoneV => None::<u8>.serialize(s),
+            Sh::Unit => ().serialize(s),
+            Sh::UnitStruct => UnitS.serialize(s),
+            Sh::UnitVariant(i) => match i {
+                0 => UnitE::A,
+                1 => UnitE::Ok,
+                2 => UnitE::Third,
+                _ => UnitE::Variant9,
+            }
+            .serialize(s),
+            Sh::SomeV(x) => Some(&**x).serialize(s),
+            Sh::Newtype(x) => NewT(x).serialize(s),
+            Sh::Wrapper(x) => DltVerbArgTypeWrapper::DltScodAscii(x).serialize(s),
+            Sh::NewtypeVariant(i, x) => match i {
+                0 => NewtE::A(x),
+                1 => NewtE::Ok(x),
+                2 => NewtE::Third(x),
+                _ => NewtE::Variant9(x),
+            }
+            .serialize(s),
+            Sh::Seq(v) => v.serialize(s), // Vec<Sh>
+            Sh::Tuple(v) => match v.as_slice() {
+                [a] => (a,).serialize(s),
+                [a, b] => (a, b).serialize(s),
+                [a, b, c] => (a, b, c).serialize(s),
+                [a, b, c, d] => (a, b, c, d).serialize(s),
+                _ => {
+                    let mut t = s.serialize_tuple(v.len())?; // (a 0-tuple is `()` in Rust; this is the data-model tuple of arity 0 / > 4)
+                    for x in v {
+                        t.serialize_element(x)?;
+                    }
+                    t.end()
+                }
+            },
+            Sh::TupleStruct(v) => match v.as_slice() {
+                [a, b] => TupS2(a, b).serialize(s),
+                [a, b, c] => TupS3(a, b, c).serialize(s),
+                _ => {
+                    let mut t = s.serialize_tuple_struct("TupSN", v.len())?;
+                    for x in v {
+                        t.serialize_field(x)?;
+                    }
+                    t.end()
+                }
+            },
+            Sh::TupleVariant(i, v) => match (v.as_slice(), i) {
+                ([a, b], 0) => TupE::A(a, b).serialize(s),
+                ([a, b], 1) => TupE::Ok(a, b).serialize(s),
+                ([a, b], 2) => TupE::Third(a, b).serialize(s),
+                ([a, b], 3) => TupE::Variant9(a, b).serialize(s),
+                _ => {
+                    let mut t = s.serialize_tuple_variant("TupE", *i as u32, NAMES[*i], v.len())?;
+                    for x in v {
+                        t.serialize_field(x)?;
+                    }
+                    t.end()
+                }
+            },
+            Sh::Map(v) => {
+                let mut m = s.serialize_map(Some(v.len().div_ceil(2)))?;
+                for (j, x) in v.iter().enumerate() {
+                    if j % 2 == 0 {
+                        m.serialize_key(x)?;
+                    } else {
+                        m.serialize_value(x)?;
+                    }
+                }
+                m.end()
+            }
+            Sh::Struct(v) => {
+                let ids = field_ids(v);
+                match ids.as_slice() {
+                    [0] => St1 { A: &field_val(&v[0]) }.serialize(s),
+                    [0, 1] => St2 { A: &field_val(&v[0]), Ok: &field_val(&v[1]) }.serialize(s),
+                    [0, 1, 2] => St3 { A: &field_val(&v[0]), Ok: &field_val(&v[1]), Third: &field_val(&v[2]) }.serialize(s),
+                    _ => {
+                        let mut t = s.serialize_struct("StN", v.len())?;
+                        for (f, id) in v.iter().zip(ids.iter()) {
+                            t.serialize_field(NAMES[*id % NAMES.len()], &field_val(f))?;
+                        }
+                        t.end()
+                    }
+                }
+            }
+            Sh::StructVariant(i, v) => {
+                let ids = field_ids(v);
+                let mut t = s.serialize_struct_variant("StE", *i as u32, NAMES[*i], v.len())?;
+                for (f, id) in v.iter().zip(ids.iter()) {
+                    t.serialize_field(NAMES[*id % NAMES.len()], &field_val(f))?;
+                }
+                t.end()
+            }
+            Sh::Field(_, x) => x.serialize(s), // (only meaningful below a struct / through d_struct)
+        }
+    }
+}
+
+impl Sh {
+    fn tname(&self) -> &'static str {
+        match self {
+            Sh::Leaf(_) => "leaf",
+            Sh::Char(_) => "char",
+            Sh::NoneV => "none",
+            Sh::Unit => "unit",
+            Sh::UnitStruct => "unit_struct",
+            Sh::UnitVariant(_) => "unit_variant",
+            Sh::SomeV(_) => "some",
+            Sh::Newtype(_) => "newtype",
+            Sh::Wrapper(_) => "wrapper",
+            Sh::NewtypeVariant(..) => "newtype_variant",
+            Sh::Seq(_) => "seq",
+            Sh::Tuple(_) => "tuple",
+            Sh::TupleStruct(_) => "tuple_struct",
+            Sh::TupleVariant(..) => "tuple_variant",
+            Sh::Map(_) => "map",
+            Sh::Struct(_) => "struct",
+            Sh::StructVariant(..) => "struct_variant",
+            Sh::Field(..) => "field",
+        }
+    }
+    fn kids(&self) -> Vec<&Sh> {
+        match self {
+            Sh::SomeV(x) | Sh::Newtype(x) | Sh::Wrapper(x) | Sh::NewtypeVariant(_, x) | Sh::Field(_, x) => vec![&**x],
+            Sh::Seq(v) | Sh::Tuple(v) | Sh::TupleStruct(v) | Sh::TupleVariant(_, v) | Sh::Map(v) | Sh::Struct(v) | Sh::StructVariant(_, v) => v.iter().collect(),
+            _ => vec![],
+        }
+    }
+    fn name_id(&self) -> Option<usize> {
+        match self {
+            Sh::UnitVariant(i) | Sh::NewtypeVariant(i, _) | Sh::TupleVariant(i, _) | Sh::StructVariant(i, _) | Sh::Field(i, _) => Some(*i),
+            _ => None,
+        }
+    }
+    /// the tree as logged for the contract: node type, the value of a leaf / the bytes of a char, the bytes of a name, children
+    fn json(&self) -> Value {
+        let a = match self {
+            Sh::Leaf(v) => v.json(),
+            Sh::Char(i) => json!({"kind":"strU","w":0,"raw":CHARS[*i].to_string().into_bytes(),"num":Vec::<Vec<u8>>::new()}),
+            _ => json!({"kind":"none","w":0,"raw":Vec::<u8>::new(),"num":Vec::<Vec<u8>>::new()}),
+        };
+        json!({"t": self.tname(), "a": a, "name": self.name_id().map(|i| NAMES[i].as_bytes().to_vec()).unwrap_or_default(),
+               "c": self.kids().iter().map(|k| k.json()).collect::<Vec<_>>()})
+    }
+    fn count_hits(&self, hit: &mut dyn FnMut(String)) {
+        hit(format!("shape_{}", self.tname()));
+        for k in self.kids() {
+            k.count_hits(hit);
+        }
+    }
+    /// a tree emitted by TLC ({"t","i","n","c"}) over the scenario's values
+    fn from_scn(j: &Value, vals: &[Val]) -> Sh {
+        let kids: Vec<Sh> = j["c"].as_array().unwrap().iter().map(|k| Sh::from_scn(k, vals)).collect();
+        let i = j["i"].as_u64().unwrap() as usize;
+        let one = || Box::new(kids[0].clone());
+        let name = || {
+            assert_eq!(NAMES[i - 1].len() as u64, j["n"].as_u64().unwrap(), "driver NAMES and the model's NameLen disagree");
+            i - 1
+        };
+        match j["t"].as_str().unwrap() {
+            "leaf" => Sh::Leaf(vals[i - 1].clone()),
+            "char" => {
+                assert_eq!(CHARS[i - 1].len_utf8() as u64, j["n"].as_u64().unwrap(), "driver CHARS and the model's CharLen disagree");
+                Sh::Char(i - 1)
+            }
+            "none" => Sh::NoneV,
+            "unit" => Sh::Unit,
+            "unit_struct" => Sh::UnitStruct,
+            "unit_variant" => Sh::UnitVariant(name()),
+            "some" => Sh::SomeV(one()),
+            "newtype" => Sh::Newtype(one()),
+            "wrapper" => Sh::Wrapper(one()),
+            "newtype_variant" => Sh::NewtypeVariant(name(), one()),
+            "seq" => Sh::Seq(kids),
+            "tuple" => Sh::Tuple(kids),
+            "tuple_struct" => Sh::TupleStruct(kids),
+            "tuple_variant" => Sh::TupleVariant(name(), kids),
+            "map" => Sh::Map(kids),
+            "struct" => Sh::Struct(kids),
+            "struct_variant" => Sh::StructVariant(name(), kids),
+            "field" => Sh::Field(name(), one()),
+            t => panic!("driver: unknown node type {}", t),
+        }
+    }
+}
+
+const VIAS: [&str; 9] = ["args", "to_payload", "d_seq", "d_tuple", "d_tuple_struct", "d_tuple_variant", "d_map", "d_struct", "d_struct_variant"];
+
+/// hand the trees to the serde encoder through the entry point `via`
+fn encode_shaped(via: &str, tops: &[Sh]) -> Result<(u32, Vec<u8>), String> {
+    use adlt::serde_verb_payload::{to_payload, Error};
+    use serde::ser::{SerializeMap, SerializeSeq, SerializeStruct, SerializeStructVariant, SerializeTuple, SerializeTupleStruct, SerializeTupleVariant};
+    let direct = |f: &dyn Fn(&mut Serializer) -> Result<(), Error>| -> Result<(u8, Vec<u8>), Error> {
+        let mut s = Serializer { output: Vec::default() };
+        f(&mut s)?;
+        Ok((tops.len().min(255) as u8, s.output))
+    };
+    let fld = |t: &Sh| -> (&'static str, Sh) {
+        match t {
+            Sh::Field(i, x) => (NAMES[*i], (**x).clone()),
+            other => ("A", other.clone()),
+        }
+    };
+    let r = match via {
+        "args" => match tops {
+            [] => adlt::dlt_args!(),
+            [a] => adlt::dlt_args!(a),
+            [a, b] => adlt::dlt_args!(a, b),
+            [a, b, c] => adlt::dlt_args!(a, b, c),
+            [a, b, c, d] => adlt::dlt_args!(a, b, c, d),
+            _ => direct(&|s| {
+                for t in tops {
+                    add_to_serializer(s, t)?;
+                }
+                Ok(())
+            }),
+        },
+        "to_payload" => to_payload(&tops[0]).map(|p| (1u8, p)),
+        // the helper traits of `&mut Serializer`, element by element, then `end`
+        "d_seq" => direct(&|s| {
+            let mut h = s;
+            for t in tops {
+                SerializeSeq::serialize_element(&mut h, t)?;
+            }
+            SerializeSeq::end(h)
+        }),
+        "d_tuple" => direct(&|s| {
+            let mut h = s;
+            for t in tops {
+                SerializeTuple::serialize_element(&mut h, t)?;
+            }
+            SerializeTuple::end(h)
+        }),
+        "d_tuple_struct" => direct(&|s| {
+            let mut h = s;
+            for t in tops {
+                SerializeTupleStruct::serialize_field(&mut h, t)?;
+            }
+            SerializeTupleStruct::end(h)
+        }),
+        "d_tuple_variant" => direct(&|s| {
+            let mut h = s;
+            for t in tops {
+                SerializeTupleVariant::serialize_field(&mut h, t)?;
+            }
+            SerializeTupleVariant::end(h)
+        }),
+        "d_map" => direct(&|s| {
+            let mut h = s;
+            for (j, t) in tops.iter().enumerate() {
+                if j % 2 == 0 {
+                    SerializeMap::serialize_key(&mut h, t)?;
+                } else {
+                    SerializeMap::serialize_value(&mut h, t)?;
+                }
+            }
+            SerializeMap::end(h)
+        }),
+        "d_struct" => direct(&|s| {
+            let mut h = s;
+            for t in tops {
+                let (k, v) = fld(t);
+                SerializeStruct::serialize_field(&mut h, k, &v)?;
+            }
+            SerializeStruct::end(h)
+        }),
+        "d_struct_variant" => direct(&|s| {
+            let mut h = s;
+            for t in tops {
+                let (k, v) = fld(t);
+                SerializeStructVariant::serialize_field(&mut h, k, &v)?;
+            }
+            SerializeStructVariant::end(h)
+        }),
+        v => panic!("driver: unknown entry point {}", v),
+    };
+    r.map(|(n, p)| (n as u32, p)).map_err(|e| format!("encoder error: {}", e))
+}
+
+/// a random tree over random values (depth <= 3); `names` bounds the number of optional (named) nodes of one case
+fn random_tree(rng: &mut Rng, depth: u32, names: &mut u32) -> Sh {
+    let leaf = |rng: &mut Rng| -> Sh {
+        let kinds: [(&str, usize); 14] = [("bool", 1), ("sint", 1), ("sint", 2), ("sint", 4), ("sint", 8), ("uint", 1), ("uint", 2), ("uint", 4),
+                                          ("uint", 8), ("floa", 4), ("floa", 8), ("strU", 0), ("strA", 0), ("rawd", 0)];
+        loop {
+            let (k, w) = *rng.pick(&kinds);
+            let n = match rng.below(4) { 0 => 0, 1 => 1, _ => rng.range(1, 12) as usize };
+            if let Some(v) = pick_val(rng, k, w, n, "serde") {
+                return Sh::Leaf(v);
+            }
+        }
+    };
+    if depth == 0 {
+        return leaf(rng);
+    }
+    let kid = |rng: &mut Rng, names: &mut u32| Box::new(random_tree(rng, depth - 1, names));
+    let r = rng.below(40);
+    let named_ok = *names < 4;
+    match r {
+        0..=13 => leaf(rng),
+        14..=19 => Sh::SomeV(kid(rng, names)),
+        20..=24 => Sh::Newtype(kid(rng, names)),
+        25 => Sh::Char(rng.below(4) as usize),
+        26 => Sh::NoneV,
+        27 => rng.pick(&[Sh::Unit, Sh::UnitStruct]).clone(),
+        28 | 29 => {
+            let n = rng.below(10) as usize;
+            Sh::Wrapper(Box::new(if rng.chance(2, 3) { Sh::Leaf(Val::Raw(str_bytes(rng, n, false))) } else { random_tree(rng, depth - 1, names) }))
+        }
+        30 | 31 if named_ok => {
+            *names += 1;
+            Sh::UnitVariant(rng.below(4) as usize)
+        }
+        32 if named_ok => {
+            *names += 1;
+            Sh::NewtypeVariant(rng.below(4) as usize, kid(rng, names))
+        }
+        _ => {
+            let n = rng.below(4) as usize;
+            let mut v = Vec::new();
+            for _ in 0..n {
+                v.push(random_tree(rng, depth - 1, names));
+            }
+            match rng.below(7) {
+                0 => Sh::Seq(v),
+                1 => Sh::Tuple(v),
+                2 => Sh::TupleStruct(v),
+                3 => Sh::Map(v),
+                4 if *names < 4 => {
+                    *names += 1;
+                    Sh::TupleVariant(rng.below(4) as usize, v)
+                }
+                5 if *names + (n as u32) <= 4 => {
+                    *names += n as u32;
+                    Sh::Struct(v.into_iter().enumerate().map(|(j, x)| Sh::Field(j % 4, Box::new(x))).collect())
+                }
+                _ => Sh::Tuple(v),
+            }
+        }
+    }
+}
+
 // ------------------------------------------------------------------------------------------------ the real code
 fn encode(enc: &str, be: bool, vals: &[Val]) -> Result<(u32, Vec<u8>), String> {
     if enc == "serde" {
@@ -364,8 +802,15 @@ struct Obs {
 }
 
 fn run_real(enc: &str, be: bool, vals: &[Val], trunc: Option<usize>, corr: Option<(usize, bool, u32)>) -> Result<Obs, String> {
+    run_with(be, &|| encode(enc, be, vals), trunc, corr)
+}
+fn run_shaped(via: &str, tops: &[Sh]) -> Result<Obs, String> {
+    run_with(cfg!(target_endian = "big"), &|| encode_shaped(via, tops), None, None)
+}
+
+fn run_with(be: bool, encode_it: &dyn Fn() -> Result<(u32, Vec<u8>), String>, trunc: Option<usize>, corr: Option<(usize, bool, u32)>) -> Result<Obs, String> {
     catch(std::panic::AssertUnwindSafe(|| -> Result<Obs, String> {
-        let (noar, mut payload) = encode(enc, be, vals)?;
+        let (noar, mut payload) = encode_it()?;
         if let Some((off, is_ti, val)) = corr {
             let bytes: Vec<u8> = if is_ti {
                 if be { val.to_be_bytes().to_vec() } else { val.to_le_bytes().to_vec() }
@@ -412,7 +857,7 @@ fn emit(t: &mut Trace, case: u64, src: &str, enc: &str, be: bool, mode: &str, cp
     t.ev(json!({"ev":"reset","case":case,"hdr":{"src":src}}));
     match r {
         Ok(o) => t.ev(json!({
-            "ev":"codec","enc":enc,"be":be,"mode":mode,"cpos":cpos,"noar":o.noar,
+            "ev":"codec","enc":enc,"be":be,"mode":mode,"cpos":cpos,"noar":o.noar,"via":"plain","tops":Vec::<Value>::new(),
             "args_in": vals.iter().map(|v| v.json()).collect::<Vec<_>>(),
             "paylen": o.paylen,
             "args_out": o.out.iter().map(|(ti, b, off, raw)| json!({"ti":[ti & 0xffff, ti >> 16],"be":b,"off":off,"raw":raw})).collect::<Vec<_>>(),
@@ -421,10 +866,29 @@ fn emit(t: &mut Trace, case: u64, src: &str, enc: &str, be: bool, mode: &str, cp
         Err(msg) if msg.starts_with("encoder error") => {
             // the encoder refused the input (returned Err): record what the 16-bit length fields would have had to carry
             let lens: Vec<usize> = vals.iter().map(|v| if v.is_num() || v.kind() == "bool" { 0 } else { v.raw_in_msg(be, enc).len() }).collect();
-            t.ev(json!({"ev":"refused","msg":msg,"enc":enc,"be":be,"lens":lens}))
+            t.ev(json!({"ev":"refused","msg":msg,"enc":enc,"be":be,"lens":lens,"via":"plain","tops":Vec::<Value>::new()}))
         }
         Err(msg) => t.ev(json!({"ev":"panic","msg":msg,"enc":enc,"be":be,"mode":mode,
                                 "args_in": vals.iter().map(|v| v.json()).collect::<Vec<_>>()})),
+    }
+}
+
+/// one case of values handed over as nested shapes: the trees go into the event, the contract derives the handed values itself
+fn emit_shaped(t: &mut Trace, case: u64, src: &str, via: &str, tops: &[Sh], r: &Result<Obs, String>) {
+    t.ev(json!({"ev":"reset","case":case,"hdr":{"src":src}}));
+    let be = cfg!(target_endian = "big");
+    let trees: Vec<Value> = tops.iter().map(|x| x.json()).collect();
+    match r {
+        Ok(o) => t.ev(json!({
+            "ev":"codec","enc":"serde","be":be,"mode":"full","cpos":0,"noar":o.noar,"via":via,"tops":trees,
+            "args_in": Vec::<Value>::new(), "paylen": o.paylen,
+            "args_out": o.out.iter().map(|(ti, b, off, raw)| json!({"ti":[ti & 0xffff, ti >> 16],"be":b,"off":off,"raw":raw})).collect::<Vec<_>>(),
+            "text_ok": o.text.is_some(), "text": o.text.clone().unwrap_or_default(),
+        })),
+        Err(msg) if msg.starts_with("encoder error") => {
+            t.ev(json!({"ev":"refused","msg":msg,"enc":"serde","be":be,"lens":Vec::<u64>::new(),"via":via,"tops":trees}))
+        }
+        Err(msg) => t.ev(json!({"ev":"panic","msg":msg,"enc":"serde","be":be,"mode":"full","via":via,"tops":trees})),
     }
 }
 
@@ -438,12 +902,84 @@ fn main() {
     let mut case = a.num("--first-case", 0);
     let sample_every = a.num("--sample-every", 50);
     let (mut replayed, mut fast, mut slow, mut drift, mut skipped, mut nontrivial) = (0u64, 0u64, 0u64, 0u64, 0u64, 0u64);
+    let (mut shaped, mut shape_drift) = (0u64, 0u64);
     let mut hits = std::collections::BTreeMap::<String, u64>::new();
     let mut hit = |k: String| *hits.entry(k).or_insert(0) += 1;
     if let Some(f) = a.get("--scenarios") {
         for scn in read_ndjson(f) {
             let mode = scn["mode"].as_str().unwrap().to_string();
             let k = scn["k"].as_u64().unwrap() as usize;
+            if mode == "shape" {
+                // the scenario's values handed to the serde encoder as nested shapes; TLC predicts refusal (and error) or the slices
+                let mut vals = Vec::new();
+                for aj in scn["args"].as_array().unwrap() {
+                    match pick_val(&mut rng, aj["kind"].as_str().unwrap(), aj["w"].as_u64().unwrap() as usize, aj["n"].as_u64().unwrap() as usize, "serde") {
+                        Some(v) => vals.push(v),
+                        None => break,
+                    }
+                }
+                if vals.len() != scn["args"].as_array().unwrap().len() {
+                    skipped += 1;
+                    continue;
+                }
+                let via = scn["via"].as_str().unwrap();
+                let tops: Vec<Sh> = scn["tops"].as_array().unwrap().iter().map(|j| Sh::from_scn(j, &vals)).collect();
+                let r = run_shaped(via, &tops);
+                replayed += 1;
+                shaped += 1;
+                hit(format!("via_{}", via));
+                for x in &tops {
+                    x.count_hits(&mut hit);
+                }
+                let be = cfg!(target_endian = "big");
+                let same = match &r {
+                    Ok(o) => {
+                        let pred = scn["out"].as_array().unwrap();
+                        let leaves = scn["leaves"].as_array().unwrap();
+                        scn["ok"] == json!(true) && o.out.len() == pred.len() && o.paylen == k && o.text.is_some()
+                            && o.out.iter().zip(pred.iter()).zip(leaves.iter()).all(|((ob, p), lf)| {
+                                let si = lf["si"].as_u64().unwrap() as usize;
+                                let want: Vec<u8> = match lf["src"].as_str().unwrap() {
+                                    "arg" => vals[si - 1].raw_in_msg(be, "serde"),
+                                    "name" => [NAMES[si - 1].as_bytes(), &[0u8]].concat(),
+                                    _ => [CHARS[si - 1].to_string().as_bytes(), &[0u8]].concat(),
+                                };
+                                ob.0 as u64 == p["ti"].as_u64().unwrap() && ob.1 == be && ob.2 == p["off"].as_i64().unwrap()
+                                    && ob.3.len() as u64 == p["len"].as_u64().unwrap() && ob.3 == want
+                            })
+                    }
+                    Err(msg) => {
+                        let want = match scn["err"].as_str().unwrap() {
+                            "Nyi" => "encoder error: not yet implemented! (Nyi)",
+                            "UnsupportedType" => "encoder error: unsupported type",
+                            _ => "?",
+                        };
+                        scn["ok"] == json!(false) && msg == want
+                    }
+                };
+                match &r {
+                    Ok(o) => {
+                        hit("shape_accepted".into());
+                        if !o.out.is_empty() {
+                            nontrivial += 1;
+                        }
+                    }
+                    Err(m) if m.starts_with("encoder error") => hit(format!("shape_refused_{}", if m.contains("Nyi") { "nyi" } else if m.contains("unsupported") { "unsupported" } else { "other" })),
+                    Err(_) => hit("shape_panic".into()),
+                }
+                if !same {
+                    drift += 1;
+                    shape_drift += 1;
+                }
+                if !same || shaped % sample_every == 0 {
+                    emit_shaped(&mut t, case, "tlc", via, &tops, &r);
+                    case += 1;
+                    slow += 1;
+                } else {
+                    fast += 1;
+                }
+                continue;
+            }
             for (enc, be) in ENCS {
                 let mut vals = Vec::new();
                 for aj in scn["args"].as_array().unwrap() {
@@ -561,6 +1097,42 @@ fn main() {
             }
         }
     }
+    // directed nested shapes (always judged by the contract, whatever the sampling picks): one value per entry point and wrapper,
+    // struct fields with numeric values, names between values, refused containers
+    if a.num("--directed", 0) > 0 {
+        let l = |v: Val| Sh::Leaf(v);
+        let b = |x: Sh| Box::new(x);
+        let mut list: Vec<(&str, Vec<Sh>)> = vec![
+            ("d_struct", vec![Sh::Field(0, b(l(Val::U8(7))))]),
+            ("d_struct", vec![Sh::Field(1, b(l(Val::I16(-2))))]),
+            ("d_struct", vec![Sh::Field(2, b(l(Val::U32(500_000))))]),
+            ("d_struct_variant", vec![Sh::Field(3, b(l(Val::I64(i64::MIN)))), Sh::Field(0, b(Sh::SomeV(b(l(Val::Bool(true))))))]),
+            ("args", vec![Sh::SomeV(b(l(Val::U8(1)))), Sh::Newtype(b(l(Val::StrU(b"ab".to_vec())))), Sh::Char(1)]),
+            ("args", vec![Sh::UnitVariant(0), l(Val::F32(1.5)), Sh::UnitVariant(3)]),
+            ("args", vec![Sh::Wrapper(b(l(Val::Raw(b"a b\0".to_vec())))), Sh::Wrapper(b(Sh::SomeV(b(l(Val::Raw(vec![0xe4, b'x']))))))]),
+            ("args", vec![Sh::Tuple(vec![l(Val::U8(1)), l(Val::U16(2))])]),
+            ("args", vec![l(Val::U8(1)), Sh::Struct(vec![Sh::Field(0, b(l(Val::U8(2)))), Sh::Field(1, b(l(Val::U8(3))))])]),
+            ("args", vec![Sh::Seq(vec![l(Val::I8(-1)); 3]), l(Val::Bool(false))]),
+            ("args", vec![l(Val::U8(1)), Sh::NoneV]),
+            ("args", vec![Sh::Wrapper(b(l(Val::U8(1))))]),
+            ("to_payload", vec![Sh::SomeV(b(l(Val::F64(-2.25))))]),
+            ("to_payload", vec![Sh::Newtype(b(l(Val::Raw(vec![1, 2, 3]))))]),
+            ("to_payload", vec![Sh::Unit]),
+        ];
+        for via in &VIAS[2..7] {
+            list.push((via, vec![l(Val::U16(513)), Sh::SomeV(b(l(Val::StrU(b"x y".to_vec())))), l(Val::Raw(vec![0xde, 0xad]))]));
+        }
+        for (via, tops) in &list {
+            let r = run_shaped(via, tops);
+            hit(format!("via_{}", via));
+            for x in tops {
+                x.count_hits(&mut hit);
+            }
+            emit_shaped(&mut t, case, "dshape", via, tops, &r);
+            case += 1;
+            directed += 1;
+        }
+    }
     // seeded random cases: longer sequences, every value class, random truncation / corruption
     let n_random = a.num("--random", 0);
     let n_huge = a.num("--huge", 0);
@@ -634,8 +1206,39 @@ fn main() {
         }
         case += 1;
     }
+    // seeded random nested shapes: random trees (depth <= 3) over random values through a random entry point; no prediction,
+    // the contract alone judges (it derives the handed values from the logged trees)
+    let n_rshapes = a.num("--random-shapes", 0);
+    for _ in 0..n_rshapes {
+        let mut names = 0u32;
+        let ntops = match rng.below(6) { 0 => 0, 1 | 2 => 1, 3 => 2, 4 => 3, _ => rng.range(4, 6) as usize };
+        let mut tops: Vec<Sh> = (0..ntops).map(|_| random_tree(&mut rng, 3, &mut names)).collect();
+        let via = match rng.below(10) {
+            0 | 1 if ntops == 1 => "to_payload",
+            2 | 3 => *rng.pick(&VIAS[2..]),
+            _ => "args",
+        };
+        if via == "d_struct" || via == "d_struct_variant" {
+            if names as usize + tops.len() > 4 {
+                tops.truncate(4usize.saturating_sub(names as usize));
+            }
+            tops = tops.into_iter().enumerate().map(|(j, x)| Sh::Field(j % 4, Box::new(x))).collect();
+        }
+        let r = run_shaped(via, &tops);
+        hit(format!("via_{}", via));
+        for x in &tops {
+            x.count_hits(&mut hit);
+        }
+        match &r {
+            Ok(_) => hit("rshape_accepted".into()),
+            Err(m) if m.starts_with("encoder error") => hit("rshape_refused".into()),
+            Err(_) => hit("rshape_panic".into()),
+        }
+        emit_shaped(&mut t, case, "rshape", via, &tops, &r);
+        case += 1;
+    }
     t.flush();
-    println!("{}", json!({"cases": case, "lines": t.lines, "replayed": replayed, "fast_path": fast, "slow_path": slow + n_random + directed,
+    println!("{}", json!({"cases": case, "shaped_replayed": shaped, "shape_drift": shape_drift, "random_shapes": n_rshapes, "lines": t.lines, "replayed": replayed, "fast_path": fast, "slow_path": slow + n_random + directed + n_rshapes,
                           "directed": directed,
                           "drift": drift, "skipped_not_encodable": skipped, "nontrivial_replayed": nontrivial, "hits": hits}));
 }
